@@ -47,8 +47,10 @@ def build(case):
         depth, x_start = {"inside": (1e-6, 2e-6), "late": (3e-8, 3e-6),
                           "early": (2e-6, 1e-7),
                           "incontact": (1.5e-6, -2e-7)}[pos]
-        tr = synth.truth_params(mk, E=MODEL_E[mk], contact_point=0.0,
-                                baseline=0.0)
+        # (contact point and baseline away from zero: a unit or sign slip
+        # in a feature must not be hidden by special values)
+        tr = synth.truth_params(mk, E=MODEL_E[mk], contact_point=2.5e-7,
+                                baseline=3e-11)
         arr = synth.make_arrays(mk, tr, n_app=n, n_ret=max(50, n // 4),
                                 x_start=x_start, depth=depth)
         f = arr["force"]
@@ -57,7 +59,7 @@ def build(case):
         if case["noise"]:
             f = f + rs.normal(0, case["noise"] * Fmax, f.size)
         if case["spikes"]:
-            ind = np.flatnonzero(arr["tip position"][:n] < 0)
+            ind = np.flatnonzero(arr["tip position"][:n] < 2.5e-7)
             if ind.size > 6:
                 for j in ind[[ind.size // 4, ind.size // 2,
                               3 * ind.size // 4]]:
